@@ -15,6 +15,32 @@ CHECKS = {
         note='Trusted: my RPM-style reference order; probe-set completeness argument for ranges (ranges only compare against their bounds).'),
 }
 
+CHECKS.update({
+    'C01': dict(
+        category='exploration', design_ref='DESIGN.md §4 C01',
+        technique='bounded exhaustive enumeration of core-language programs (operator ladders, expression trees, method table, literals, statement sequences) run on the real interpreter in-process and end-to-end through meson setup, against a reference evaluator written from the language docs',
+        text='Every program of six bounded families is parsed and evaluated by the real mparser/Interpreter and by an independent reference '
+             'lexer/parser/evaluator (lib/verif/reflang.py, written from Syntax.md and docs/yaml/elementary); the typed variable tables or the '
+             'fact of failure must agree. All succeeding programs and a representative of every failure class additionally run end-to-end as '
+             'subprojects of a generated super-project through `meson setup` (get_variable read-back, subdir() splits, parent-variable isolation). '
+             'Small-scope completeness for the stated families; documented-unspecified corners are skipped and counted.',
+        note='Trusted: reflang as transcription of the docs; corners listed in evidence as unspec:* are never compared. Programs beyond the stated bounds are not covered.'),
+    'C13': dict(
+        category='model_checking', design_ref='DESIGN.md §4 C13',
+        technique='explicit-state search over operation sequences on real CompilerArgs/CLikeCompilerArgs objects (product with an eager reference list), plus unmerged flat enumeration validating the state merging',
+        text='All operation sequences up to the depth bound over a 9-argument alphabet (+=, append, extend, *_direct, insert, copy, reads, to_native) '
+             'are executed on real argument-list objects bound to the detected gcc; every read is compared with the eager reference list of the '
+             'property statement and history-derived invariants; states are merged on (real lazy fields, model list).',
+        note='Trusted: the eager reference list as transcription of the property; argument kind table for the 9-argument alphabet; default include dirs taken from the real compiler.'),
+    'C20': dict(
+        category='exploration', design_ref='DESIGN.md §4 C20',
+        technique='exhaustive (requirement, version) grid and SemVer order matrix against a reference Cargo matcher; exhaustive cfg() expressions to a depth bound x all assignments, and all single-token corruptions',
+        text='Every single comparator and every comma pair over a bounded component domain is evaluated on every version of the domain by the real '
+             'cargo_parse and by a reference matcher transcribed twice from the Cargo rules (with the two pinned deviations); SemVer order axioms on all '
+             'triples; every cfg() expression to depth 2 (+ a depth-3 layer) under all 16 configurations; every single-token edit must raise MesonException.',
+        note='Trusted: the transcription of Cargo/semver rules (cross-checked against unittests/cargotests.py tables at start-up).'),
+})
+
 NOT_YET = {}
 
 
